@@ -47,6 +47,15 @@ def run(tier, vd):
     r3["viol"] = [v for v in res3["viol"] if v["rule"] == "Q2"]
     report_viols(vd, "C13", r3, {"world": "neigh", "seed": sd}, lambda v: {"rule": v["rule"], "world": "neigh"}, lambda v: "neigh %s %s" % (v["rule"], v["p"]))
 
+    # 4. DHCP client against a talking (hostile) server: idle polls around lease expiry and retry exhaustion
+    from checks import c18
+    df = c18.dhcp_traces("quick", sd, "c13")
+    res4 = validate_traces("DhcpTrace", df, parallel=8)
+    vd.add_validation(res4)
+    r4 = dict(res4)
+    r4["viol"] = [v for v in res4["viol"] if v["rule"] == "Q2"]
+    report_viols(vd, "C13", r4, {"world": "dhcp", "seed": sd}, lambda v: {"rule": v["rule"], "world": "dhcp", "why": v["p"][-1] if v["p"] else None}, lambda v: "dhcp %s %s" % (v["rule"], v["p"]))
+
     def mut(e):
         if e.get("ev") == "poll" and e.get("kind") == "probe" and not e.get("out"):
             e["out"] = [{"et": "ip4", "proto": 6, "ty": -1, "len": 54}]
@@ -76,5 +85,9 @@ def replay(obj, vd):
         vd.cov["samples"].append(split_runs(tf)[0][:8])
     elif w == "tcp_pair":
         tcpcommon.replay_generic(obj, vd, "C13")
+    elif w == "dhcp":
+        from checks import c18
+        obj["property"] = "C13"
+        c18.replay(obj, vd)
     else:
         netcommon.replay(obj, vd, "C13")
